@@ -3,7 +3,7 @@
    The counter mirrors the Go allocation sites on each path of Parse and of the host-table calls
    it makes (hosttable.go:111-155, layer_frame.go:415-465):
      * fmt.Errorf in every IsValid failure (Ether, IP4, IP6, UDP, TCP, ICMP)            1 site
-     * ErrParseFrame is a sentinel                                                      0
+     * ErrParseFrame (ARP) and the bare ErrFrameLen of a tagged header longer than the frame are sentinels  0
      * findOrCreateHostWithLock, fast path (host in table, same MAC): two time stores    0
      * findOrCreateHostWithLock, slow path: &Host{}, CopyMAC / &MACEntry{} when the MAC is new,
        append to MACTable.Table / HostList, map insert                                  >= 2 sites
@@ -30,7 +30,12 @@ Definition parse_allocs (c : cfg) (st : bytes * bytes -> hstate) (s : slice) : r
   match parse c s with
   | Ok f => Ok (match f_host f with None => 0%nat | Some k => host_allocs (st k) end)
   | Err EParseFrame => Ok 0%nat
-  | Err _ => Ok 1%nat
+  | Err _ =>
+      (* the only ErrFrameLen returned without fmt.Errorf: 14 <= len < HeaderLen() *)
+      match ether_header_len s with
+      | Ok hl => if Nat.leb 14 (len s) && Nat.ltb (len s) hl then Ok 0%nat else Ok 1%nat
+      | _ => Ok 1%nat
+      end
   | Panic => Panic
   | Fuel => Fuel
   end.
